@@ -442,6 +442,50 @@ def unit_astype(dtype_from, dtype_to, wkind):
     return Unit('derived/astype/%s->%s/%s' % (dtype_from, dtype_to, wkind), run, funcs=[BT + 'TensorSpace._astype'], config={'from': dtype_from, 'to': dtype_to, 'weighting': wkind})
 
 
+def unit_astype_chain(d0, d1, d2, wkind='const'):
+    """TensorSpace.astype with its real / complex space caches: space(d0).astype(d1).astype(d2) has dtype d2, the shape and the weighting of the
+    original, for every chain over the floating dtypes (float16 and float32 share complex64, so a cached back-link would return the wrong space).
+    NumpyTensorSpace.__init__ is a cut that runs the real TensorSpace.__init__ (which initialises the caches) and records the weighting argument."""
+    def run(ctx):
+        I = ctx.I
+
+        def path(st):
+            install(st)
+            fr = ip.Frame(st)
+            tcls = I.get_class(BT + 'TensorSpace')
+            tinit = I.class_entry_value(*((tcls, '__init__') + (tcls.lookup('__init__')[1],)))
+
+            def ctor(I_, fr_, self, shape, dtype=None, **kw):
+                I_.call(tinit, [self, shape, dtype], {}, fr_)
+                self.fields['_NumpyTensorSpace__weighting'] = kw.get('weighting')
+                self.fields['ctor_kwargs'] = dict(kw)
+                return None
+            st.cuts[NT + 'NumpyTensorSpace.__init__'] = ctor
+            from contracts import utilcuts
+            st.cuts.update(utilcuts.cuts())
+            w = (B_constw(NT + 'NumpyTensorSpaceConstWeighting') if wkind == 'const' else B_arrayw(NT + 'NumpyTensorSpaceArrayWeighting'))(I, st, fr, 'aw', {})
+            try:
+                sp = I.call(I.get_class(NT + 'NumpyTensorSpace'), [sym_shape(st, 'a', 1)], {'dtype': d0, 'weighting': w}, fr)
+                s1 = I.call(I._getattr(sp, 'astype', fr), [d1], {}, fr)
+                s2 = I.call(I._getattr(s1, 'astype', fr), [d2], {}, fr)
+                s3 = I.call(I._getattr(s2, 'astype', fr), [d0], {}, fr)
+            except ip.PyRaise as e:
+                return ('raise', e.exc)
+            return ('ok', (sp, s1, s2, s3, w, fr))
+        info = {'chain': [d0, d1, d2, d0], 'weighting': wkind}
+        for st, (status, r) in ctx.explore(path):
+            if status == 'raise':
+                ctx.fail(st, 'astype chain evaluates without raising', 'raises %s' % lib.exc_desc(r), info)
+                continue
+            sp, s1, s2, s3, w, fr = r
+            for nm, s, d in (('first', s1, d1), ('second', s2, d2), ('back', s3, d0)):
+                ctx.prove(st, 'astype chain (%s step): requested dtype' % nm, isinstance(s, ip.Obj) and s.fields['_TensorSpace__dtype'].name == npm.DT(d).name, info)
+                ctx.prove(st, 'astype chain (%s step): same shape' % nm, as_sbool(I.py_eq(s.fields['_TensorSpace__shape'], sp.fields['_TensorSpace__shape'], fr)), info)
+                ctx.prove(st, 'astype chain (%s step): weighting of the original' % nm, s.fields['_NumpyTensorSpace__weighting'] is w, info)
+    return Unit('derived/astype-chain/%s->%s->%s/%s' % (d0, d1, d2, wkind), run, funcs=[BT + 'TensorSpace.astype', BT + 'TensorSpace._astype', BT + 'TensorSpace.__init__'],
+                config={'chain': [d0, d1, d2], 'weighting': wkind})
+
+
 def unit_canary():
     """must fail: two arrays with equal values claimed to have identical bytes (float zeros)"""
     def run(ctx):
@@ -477,5 +521,12 @@ def units(tier, seed):
     for f, t in (('float64', 'float32'), ('float64', 'complex128'), ('complex128', 'float64'), ('float64', 'int64')):
         for wk in ('const', 'array'):
             us.append(unit_astype(f, t, wk))
+    fl = ('float16', 'float32', 'float64', 'complex64', 'complex128')
+    for d0 in fl:
+        for d1 in fl:
+            for d2 in fl:
+                if d0 != d1 and d1 != d2:
+                    us.append(unit_astype_chain(d0, d1, d2))
+    us.append(unit_astype_chain('float16', 'complex64', 'float32', 'array'))
     us.append(unit_canary())
     return us
